@@ -425,6 +425,9 @@ class ConcreteCtx(CtxBase):
     def bool(self, name):
         return bool(self._get(name, False))
 
+    def word(self, name, bits=32):
+        return int(self._get(name, 0))
+
     def char(self, name, lo=0, hi=0x10FFFF):
         return chr(self._get(name, 32))
 
@@ -493,6 +496,14 @@ class SymCtx(CtxBase):
         self._reg(name, "bool", v)
         return SymBool(v)
 
+    def word(self, name, bits=32):
+        """unsigned machine word of the given width, as a 128-bit bit-vector backed integer"""
+        from symex.proxies import SymWord
+        Z = self.e.Z
+        v = Z.BitVec(name, bits)
+        self._reg(name, "bv", v)
+        return SymWord(Z.ZeroExt(SymWord.W - bits, v))
+
     def char(self, name, lo=0, hi=0x10FFFF):
         from symex.proxies import SymChar
         Z = self.e.Z
@@ -553,6 +564,8 @@ class SymCtx(CtxBase):
                 out[name] = model.eval(term, model_completion=True).as_long()
             elif kind == "bool":
                 out[name] = Z.is_true(model.eval(term, model_completion=True))
+            elif kind == "bv":
+                out[name] = model.eval(term, model_completion=True).as_long()
             elif kind == "perm":
                 out[name] = list(extra)
         return out
